@@ -770,6 +770,9 @@ func replayCounterexample(p *Program, res *UnitResult, o *Obligation, base strin
 	}
 	if clauseSrc != "" {
 		hb.WriteString(govcCloneHelper)
+		if gt.needAlias {
+			hb.WriteString(govcAliasHelper)
+		}
 		for _, sp := range gt.specSrc {
 			hb.WriteString(sp)
 		}
